@@ -87,7 +87,8 @@ MUTATING_METHODS = {"append", "extend", "insert", "pop", "popitem", "clear", "up
                     "remove", "discard", "sort", "reverse", "write", "seek", "truncate", "read", "readline",
                     "close", "cache_clear", "__setitem__", "__delitem__", "writelines", "readinto", "flush"}
 IMMUTABLE_TYPES = (int, float, str, bytes, bool, tuple, frozenset, type(None), types.FunctionType,
-                   types.BuiltinFunctionType, type, types.MappingProxyType, types.ModuleType)
+                   types.BuiltinFunctionType, type, types.MappingProxyType, types.ModuleType,
+                   __import__("struct").Struct)          # a compiled struct format has no mutable state
 
 
 class Frame:
